@@ -81,6 +81,17 @@ def run(ctx):
         o = state_outcomes(fsm, st, {'self.ulpi_dir': True})
         ctx.ob('C24.interrupt-restarts', 'ULPIRegisterWindow.write-state#%d' % fsm.states.index(st), set(o) == {ws},
                fsm.state_loc[st], 'DIR during a write must restart it from the command byte: %s' % sorted(map(str, o)))
+    # every entry into the state that offers the command byte must load that byte on the same edge (so a transfer restarted
+    # after a DIR interruption starts again with the command, not with whatever was last on the bus)
+    for kind, req, prefix in (('write', 'self.write_request', 0x80), ('read', 'self.read_request', 0xC0)):
+        ch = chain_of(req)
+        ctx.need(len(ch) >= 2, kind + ' chain')
+        addr_state = ch[1]
+        for e in fsm.in_edges(addr_state):
+            loads = [a for a in w.drivers('self.ulpi_data_out', exact=True) if a.state == e.state and q.atoms(a) == q.atoms(e)
+                     and isinstance(a.rhs, E) and a.rhs.op == '|' and any(x.op == 'const' and x.val == prefix for x in a.rhs.args)]
+            ctx.ob('C24.command-on-restart', 'ULPIRegisterWindow.%s.%s->command-state' % (kind, roles.get(e.src, e.src)), len(loads) == 1, e.loc,
+                   'entering the command state must (re)load the register %s command byte (%#x | address) on that edge: %s' % (kind, prefix, q.fmt(e)))
     done = q.raises(w, 'self.done')
     ctx.ob('C24.done', 'ULPIRegisterWindow.done', len(done) == 2 and all(a.state for a in done), None,
            'done is raised at the end of a read and of a write only')
